@@ -81,6 +81,24 @@ def prim2d(ctx, center, scale, kinds=("circle", "parallelogram", "triangle", "po
             th2 = np.linspace(0, 2 * math.pi, nv, endpoint=False) + rng.uniform(0, 1)
             V = c + scale * rng.uniform(0.9, 1.2) * np.stack([np.cos(th2), np.sin(th2)], 1)
             spec["vertices"] = [[float(a), float(b)] for a, b in V]
+        if rng.random() < 0.4:
+            # two or three holes (the boundary walks over every ring): a convex outline, holes around the centre
+            th2 = np.linspace(0, 2 * math.pi, nv, endpoint=False) + rng.uniform(0, 1)
+            V = c + scale * rng.uniform(0.95, 1.2) * np.stack([np.cos(th2), np.sin(th2)], 1)
+            spec["vertices"] = [[float(a), float(b)] for a, b in V]
+            nh = int(rng.integers(2, 4))
+            a0 = rng.uniform(0, 2 * math.pi)
+            holes = []
+            for j in range(nh):
+                hc = c + 0.38 * scale * np.array([math.cos(a0 + 2 * math.pi * j / nh), math.sin(a0 + 2 * math.pi * j / nh)])
+                m = int(rng.integers(3, 6))
+                tt = np.linspace(0, 2 * math.pi, m, endpoint=False) + rng.uniform(0, 1)
+                H = hc + rng.uniform(0.13, 0.17) * scale * np.stack([np.cos(tt), np.sin(tt)], 1)
+                if rng.random() < 0.5:
+                    H = H[::-1]
+                holes.append([[float(a), float(b)] for a, b in H])
+            spec["holes"] = holes
+            return spec
         rh = 0.3 * scale
         m = int(rng.integers(3, 6))
         tt = np.linspace(0, 2 * math.pi, m, endpoint=False) + rng.uniform(0, 1)
